@@ -43,7 +43,7 @@ def _get_uses_of(node: ast.AST, scope: ast.AST, source: str) -> Iterable[ast.Nam
 
     # Prevent renaming variables in function scopes
     blacklisted_names = set()
-    for funcdef in core.walk(scope, (ast.FunctionDef, ast.AsyncFunctionDef)):
+    for funcdef in core.walk(scope, (ast.FunctionDef, ast.AsyncFunctionDef, ast.Lambda)):
         if node in core.walk(funcdef, type(node)):
             continue
         if any(core.walk(funcdef.args, ast.arg(arg=name))):
